@@ -455,7 +455,7 @@ func recvDoJob(job *RecvJob) (res RecvJobResult) {
 	case "", "open":
 		rc, err = OpenRecvChannel(cfg, ack, job.Server, job.ChannelID, job.TokenID, 1, job.LocalNonce, job.RemoteNonce)
 	default:
-		rc, err = recvFreshChannel(cfg, ack, job.Setup == "fresh-server", job.ChannelID, job.TokenID)
+		rc, err = RecvFreshChannel(cfg, ack, job.Setup == "fresh-server", job.ChannelID, job.TokenID)
 	}
 	if err != nil {
 		return RecvJobResult{Outcome: "setup: " + err.Error()}
@@ -481,8 +481,8 @@ func recvDoJob(job *RecvJob) (res RecvJobResult) {
 	return res
 }
 
-// recvFreshChannel builds a channel on which nothing has been opened yet.
-func recvFreshChannel(cfg *uasc.Config, ack *uacp.Acknowledge, server bool, channelID, tokenID uint32) (*RecvChannel, error) {
+// RecvFreshChannel builds a channel on which nothing has been opened yet.
+func RecvFreshChannel(cfg *uasc.Config, ack *uacp.Acknowledge, server bool, channelID, tokenID uint32) (*RecvChannel, error) {
 	a, b, err := RecvTCPPair()
 	if err != nil {
 		return nil, err
